@@ -11,10 +11,22 @@ class Val:
 
 
 class Num(Val):
-    __slots__ = ("r",)
+    """Numeric normal form. `addends` (optional) keeps the top-level sum apart so
+    that linear operations (d/dx, zero tests) can work term by term."""
+    __slots__ = ("_r", "addends")
 
-    def __init__(self, r):
-        self.r = rat(r)
+    def __init__(self, r=None, addends=None):
+        self._r = rat(r) if r is not None else None
+        self.addends = addends
+
+    @property
+    def r(self):
+        if self._r is None:
+            acc = Rat.const(0)
+            for a in self.addends:
+                acc = acc + a
+            self._r = acc
+        return self._r
 
     def __repr__(self):
         return "Num(%s)" % self.r
